@@ -600,8 +600,7 @@ SCENARIOS = [
     "tests/assets/configs/test_primaite_session.yaml",
     "src/primaite/config/_package_data/uc7_config.yaml",
     "tests/assets/configs/shared_rewards.yaml",
-    "tests/assets/configs/software_fixing_duration.yaml",
-    "src/primaite/config/_package_data/uc7_config_tap003.yaml",
+    "tests/assets/configs/data_manipulation.yaml",
 ]
 
 
